@@ -275,7 +275,7 @@ func SessionC04(t *tape.Tape) *core.RunResult {
 	g := &uciGUI{s: s, prop: "C04", depthOpt: opts.Depth}
 	g.game, _ = rules.NewGame(startFEN)
 	res.Tracef("engine=%s options=%+v", w, opts)
-	nCmds := t.Range(3, 22)
+	nCmds := t.Range(3, core.Scale(22, 60))
 	lastBest := ""
 	sent := 0
 	var pendingGo *goSpec
